@@ -60,6 +60,12 @@ def ops_for(n, reduced=False):
         ops.append(['remove', g, True])
         if not reduced:
             ops.append(['remove', g, False])
+    # the argument is an element taken from the list itself: list.remove /
+    # list.index still act on the FIRST equal element (groups compare by text)
+    for i in (range(n) if not reduced else range(max(n - 1, 0), n)):
+        ops.append(['remove_at', i])
+        if not reduced:
+            ops.append(['index_at', i])
     for i in range(-(n + 1), n + 2):
         ops.append(['pop', i])
     ops.append(['pop', None])
@@ -106,6 +112,11 @@ def apply_model(L, op):
                 return ('exc', 'TypeError')
             L.remove(op[1])
             return ('val', None)
+        if name == 'remove_at':
+            L.remove(L[op[1]])
+            return ('val', None)
+        if name == 'index_at':
+            return ('val', L.index(L[op[1]]))
         if name == 'pop':
             return ('val', L.pop() if op[1] is None else L.pop(op[1]))
         if name == 'reverse':
@@ -147,6 +158,10 @@ def apply_real(args, op):
             return ('val', args.extend(items))
         if name == 'remove':
             return ('val', args.remove(mk(op[1], op[2])))
+        if name == 'remove_at':
+            return ('val', args.remove(args[op[1]]))
+        if name == 'index_at':
+            return ('val', args.index(args[op[1]]))
         if name == 'pop':
             v = args.pop() if op[1] is None else args.pop(op[1])
             return ('val', str(v))
@@ -201,7 +216,7 @@ class C18(Prop):
     rule = ('case = (initial argument list of a parsed command, operation '
             'history); histories enumerated depth-first over every operation '
             'offered in each state (append/insert at every index in '
-            '-(n+2)..n+2/extend/remove/pop(i)/pop()/reverse/clear/index/'
+            '-(n+2)..n+2/extend/remove (by string, by fresh group, by an element of the list)/pop(i)/pop()/reverse/clear/index/'
             'getitem/slices, new material as objects and as unparsed strings, '
             'malformed strings) to the depth bound, plus seeded random '
             'histories up to length 40; non-trivial = at least one mutation '
@@ -259,7 +274,7 @@ class C18(Prop):
             yield k, {'initial': init, 'ops': hist, 'random': True}
 
     def nontrivial(self, p):
-        return any(o[0] in ('append', 'insert', 'extend', 'remove', 'pop',
+        return any(o[0] in ('append', 'insert', 'extend', 'remove', 'remove_at', 'pop',
                             'reverse') for o in p['ops'])
 
     def sample(self, p):
